@@ -23,6 +23,10 @@ func runC16(c *core.Ctx) {
 	}
 	nops := r.Range(1, 200)
 	flipDen := 12
+	obsEvery := 1
+	if r.Chance(1, 3) {
+		obsEvery = r.Range(2, 6)
+	}
 	if r.Chance(1, 16) {
 		// long histories with long fill / drain phases: deep containers (growth and
 		// shrink paths of the backing storage)
@@ -104,7 +108,11 @@ func runC16(c *core.Ctx) {
 		}
 		hh = core.Mix(hh, core.HashString(hist[len(hist)-1]))
 		c.Count("calls", 1)
-		// observation after every call: Len, Peek twice (must not remove)
+		// observation after every call (or, in a third of the histories, every 2..6
+		// calls): Len, Peek twice (must not remove)
+		if i%obsEvery != obsEvery-1 && i != nops-1 {
+			continue
+		}
 		if q.Len() != len(qm) {
 			fail("Queue.Len", fmt.Sprintf("Queue.Len()=%d model %d", q.Len(), len(qm)))
 			return
@@ -138,6 +146,46 @@ func runC16(c *core.Ctx) {
 		c.Count("observations", 1)
 		c.Max("max_queue_len", int64(len(qm)))
 		c.Max("max_stack_len", int64(len(sm)))
+	}
+	// Occasionally a deep phase: thousands of values inside at once (growth policy
+	// of a re-implemented backing store), with light interleaved removals.
+	if r.Chance(1, 25) {
+		deep := r.Range(1000, 6000)
+		for i := 0; i < deep; i++ {
+			next++
+			q.Enqueue(next)
+			qm = append(qm, next)
+			st.Push(next)
+			sm = append(sm, next)
+			if i%97 == 96 {
+				v, ok := q.Dequeue()
+				if !ok || v != qm[0] {
+					fail("Dequeue:order", fmt.Sprintf("deep phase: Dequeue=(%d,%v) want %d with %d values inside", v, ok, qm[0], len(qm)))
+					return
+				}
+				qm = qm[1:]
+				v, ok = st.Pop()
+				if !ok || v != sm[len(sm)-1] {
+					fail("Pop:order", fmt.Sprintf("deep phase: Pop=(%d,%v) want %d with %d values inside", v, ok, sm[len(sm)-1], len(sm)))
+					return
+				}
+				sm = sm[:len(sm)-1]
+			}
+			if i%64 == 63 {
+				if q.Len() != len(qm) || len(st) != len(sm) {
+					fail("Len:deep", fmt.Sprintf("deep phase: Queue.Len()=%d (model %d), len(stack)=%d (model %d)", q.Len(), len(qm), len(st), len(sm)))
+					return
+				}
+				if v, ok := st.Peek(); !ok || v != sm[len(sm)-1] {
+					fail("Stack.Peek", fmt.Sprintf("deep phase: Stack.Peek()=(%d,%v) want %d", v, ok, sm[len(sm)-1]))
+					return
+				}
+			}
+		}
+		c.Count("deep_phases", 1)
+		c.Max("max_queue_len", int64(len(qm)))
+		c.Max("max_stack_len", int64(len(sm)))
+		hist = append(hist, fmt.Sprintf("deep phase: %d Enqueue+Push", deep))
 	}
 	// final drain: everything comes out in order, then empty behaviour
 	for len(qm) > 0 {
